@@ -43,6 +43,7 @@ class Spec:
         self.define = []
         self.declare = []
         self.lambdas = []   # (function, variable): lambdas of big functions lowered on their own
+        self.slices = []    # (function, name, from-variable, until-kind, until-name): statement ranges lowered as functions
         self.types = []
         self.globals = []
         self.prologue = []
@@ -73,6 +74,11 @@ class Spec:
                     self.declare += parts[1:]
                 elif d == '@lambda':
                     self.lambdas.append((parts[1], parts[2]))
+                elif d == '@slice':
+                    # @slice <function> <name> from_decl <var> until_ref <identifier> | until_decl <var>
+                    if len(parts) != 7 or parts[3] != 'from_decl' or parts[5] not in ('until_ref', 'until_decl'):
+                        raise LoweringError(f'{path}: @slice <function> <name> from_decl <var> until_ref|until_decl <name>')
+                    self.slices.append((parts[1], parts[2], parts[4], parts[5], parts[6]))
                 elif d == '@types':
                     self.types += parts[1:]
                 elif d == '@globals':
@@ -613,6 +619,8 @@ class Unit(Lowering, ExprMixin, CallMixin, StmtMixin):
             self.cur = None
             if res['captures']:
                 raise LoweringError(f'@lambda {fname} {var}: the lambda captures, cannot be lowered on its own')
+        for sl in self.spec.slices:
+            self.lower_slice(*sl)
         done = set()
         while self.queue:
             cid = self.queue.pop(0)
